@@ -3,6 +3,8 @@ package sql
 import (
 	"fmt"
 	"strings"
+
+	"github.com/alicebob/sqlittle/internal/ascii"
 )
 
 type SortOrder int
@@ -71,7 +73,7 @@ type ccCheck struct {
 // bareDefault gives the value of an unquoted word used as a DEFAULT: TRUE and
 // FALSE are booleans, any other word is taken as text.
 func bareDefault(s string) interface{} {
-	switch strings.ToUpper(s) {
+	switch ascii.Upper(s) {
 	case "TRUE":
 		return true
 	case "FALSE":
